@@ -22,6 +22,7 @@ type c03Case struct {
 	B      *xast.Expr        `json:"b"`
 	C      *xast.Expr        `json:"c"`
 	Abbrev bool              `json:"abbrev,omitempty"` // render with abbreviated steps
+	W      []string          `json:"w,omitempty"`      // $w: a node-set variable, in document order
 }
 
 var c03Union = reg("C03", "c03-union", checkC03)
@@ -99,6 +100,44 @@ func TestC03(t *testing.T) {
 		c := &c03Case{Events: ev, Ctx: ctx.Ref(), NS: ns, A: genOverlap(g, abs), B: genOverlap(g, abs), C: genOverlap(g, abs), Abbrev: rapid.Bool().Draw(t, "abbrev")}
 		c03Union.run(t, c)
 	})
+	// operands that are guided walks: steps taken from node-sets that mix
+	// elements with their own attribute and namespace nodes, from variables
+	// and from parenthesised unions
+	runProp(t, "walks", 6000, 200000, func(t *rapid.T) {
+		ev := xmodel.Gen(t, c02DocCfg())
+		p, err := prepareDoc(ev)
+		if err != nil {
+			st.Discard("document-not-mirrored")
+			return
+		}
+		ns := genBindings(t)
+		elems, attrs, targets := docNames(p.doc)
+		ctx := p.doc.Root
+		if rapid.Bool().Draw(t, "innerCtx") {
+			ctx = p.doc.All[rapid.IntRange(0, len(p.doc.All)-1).Draw(t, "ctx")]
+		}
+		abs := ctx == p.doc.Root
+		c := &c03Case{Events: ev, Ctx: ctx.Ref(), NS: ns, Abbrev: rapid.Bool().Draw(t, "abbrev"), W: mixedNodeVar(t, p.doc, "w").Nodes}
+		env := c.env(p)
+		g := &xast.G{T: t, Env: xast.GenEnv{ElemNames: queryable(elems), AttrNames: queryable(attrs), PITargets: targets, Prefixes: prefixesOf(ns), NoAbs: !abs, NodeVars: []string{"w"}}}
+		c.A, c.B, c.C = genWalk(t, g, env, ctx, abs, 3, 1), genWalk(t, g, env, ctx, abs, 3, 1), genWalk(t, g, env, ctx, abs, 2, 0)
+		c03Union.run(t, c)
+	})
+}
+
+// env is the reference environment of the case ($w bound when W is given).
+func (c *c03Case) env(p *prepared) *xref.Env {
+	env := &xref.Env{Doc: p.doc, NS: c.NS, Vars: map[xref.Name]xref.Value{}}
+	if c.W != nil {
+		var ms []*xmodel.Node
+		for _, r := range c.W {
+			if m := p.doc.Resolve(r); m != nil {
+				ms = append(ms, m)
+			}
+		}
+		env.Vars[xref.Name{Local: "w"}] = xref.NodeSet(xref.Sort(ms))
+	}
+	return env
 }
 
 func checkC03(c *c03Case) error {
@@ -115,7 +154,14 @@ func checkC03(c *c03Case) error {
 	for k, v := range c.NS {
 		set = append(set, xsel.WithNS(k, v))
 	}
-	env := &xref.Env{Doc: p.doc, NS: c.NS}
+	env := c.env(p)
+	if c.W != nil {
+		w := xsel.NodeSet{}
+		for _, m := range env.Vars[xref.Name{Local: "w"}].Nodes {
+			w = append(w, p.loc.ToCur[m])
+		}
+		set = append(set, xsel.WithVariable("w", w))
+	}
 	oos := false
 	run := func(x *xast.Expr) (xsel.NodeSet, string, error) {
 		text := xast.RenderMinimal(x)
